@@ -170,6 +170,22 @@ public:
 
         m_fac_H(0, 0) = m_op.inner_product(v, w);
         m_fac_f.noalias() = w - v * m_fac_H(0, 0);
+        // If v is close to an eigenvector, f is the difference of two nearly equal vectors
+        // and mostly consists of rounding errors that are not orthogonal to v.
+        // Since f/||f|| is going to be the second column of V, project out v again
+        // ("twice is enough").
+        // Nothing needs to be done unless a good part of the digits of w has been cancelled
+        // (here: more than a quarter of them, so that V stays orthonormal to eps^(3/4))
+        using std::sqrt;
+        if (m_op.norm(m_fac_f) <= sqrt(sqrt(m_eps)) * abs(m_fac_H(0, 0)))
+        {
+            for (int pass = 0; pass < 2; pass++)
+            {
+                const Scalar vf = m_op.inner_product(v, m_fac_f);
+                m_fac_f.noalias() -= v * vf;
+                m_fac_H(0, 0) += vf;
+            }
+        }
 
         // In some cases, H[1,1] is already an eigenvalue of A,
         // so f would be zero in exact arithmetics. But due to rounding errors,
